@@ -33,6 +33,7 @@ type Profile struct {
 	Conflicts   bool // DetectConflicts
 	IterHeavy   bool // more/longer iterator scripts (C06)
 	AllowGC     bool // generate value-log GC steps even while C02-R1 is open (used to replay it)
+	MemSizes    []int // memtable sizes to draw from (default 8 MiB: rotation only where the history places it)
 }
 
 // IterStep is one call on an open iterator.
@@ -138,6 +139,10 @@ func genIter(t *rapid.T, keys [][]byte, heavy bool) IterSpec {
 func Gen(t *rapid.T, p Profile) Case {
 	c := Case{Cfg: eng.GenCfg(t), NTRule: p.Name}
 	c.Cfg.MemTableSize = 8 << 20
+	if len(p.MemSizes) > 0 {
+		// small memtables: commits straddle automatic rotations
+		c.Cfg.MemTableSize = int64(rapid.SampledFrom(p.MemSizes).Draw(t, "memSize"))
+	}
 	c.Cfg.DetectConflicts = p.Conflicts
 	if p.SmallLimits {
 		c.Cfg.MaxBatchCount = int64(rapid.SampledFrom([]int{4, 8}).Draw(t, "maxCount"))
